@@ -286,6 +286,8 @@ fn scenario_post(rec: &mut Rec, name: &str, size: usize, page: usize, threads: V
             }
             if times > 1 && !marked.contains(p) {
                 rec.fail("C08", &format!("{}/mark-reported-twice", name), &format!("page={} times={} order={:?}", p, times, order));
+                // the same observation read as precision (C16): the page is dirty again although nothing wrote it since it was harvested
+                rec.fail("C16", &format!("{}/dirty-again-without-a-write", name), &format!("page={} order={:?}", p, order));
             }
             if times == 0 && !cleared.contains(p) {
                 rec.fail("C08", &format!("{}/lost-mark", name), &format!("page={} (marked before the race) order={:?}", p, order));
